@@ -2,6 +2,7 @@ import XPathV.Lemmas.Facts
 import XPathV.Generated.ExtraFacts
 import XPathV.Lemmas.C07Base
 import XPathV.Lemmas.CmpSem
+import XPathV.Lemmas.CmpSem2
 /-!
 # C07 — comparison and boolean operators follow XPath 1.0 (property-level theorems)
 
@@ -213,3 +214,102 @@ end XPathV.Theorems.C07
 section AxiomAudit
 open XPathV.Theorems.C07
 end AxiomAudit
+
+/-! ## C07 over filtered paths (`Lemmas/CmpSem2.lean`)
+
+The node-set operands of `C07_main` / `C07_main_full` are predicate-free paths (`PathPF`).  Here they
+are the paths of the C02 fragment **with predicates**, `PredSem2.Frag2 true`: `//a[@x]`,
+`//b[count(*) = 0]`, `a[b < c]`, `(P)[b]`, … — any number of boolean-valued predicates on any step.
+`CmpSem2.XExpP PP NP SP` is `XExpG NP SP` with the node-set leaves as a parameter;
+`CmpSem2.XExp2F d c F = XExpP (Frag2 true) (NumEF d ⟨c, 1, 1⟩ F) StrE`.  As everywhere for `Frag2`
+the builder runs with `smartDescThroughFilter = false` (the value read off the source). -/
+namespace XPathV.Theorems.C07
+open XPathV XPathV.Model XPathV.Facts XPathV.PathSem XPathV.CmpSem XPathV.CmpSem2 NumAlg
+
+variable {F : Type} [NumAlg F]
+
+/-- **C07 at expression level, through the builder, node-set operands with predicates**: the same
+conclusion as `C07_main_full` — the built plan evaluates to the oracle's boolean — for every
+boolean-valued expression whose node-set leaves are paths of `PredSem2.Frag2 true` (number-valued
+leaves: the full arithmetic fragment of C08; string-valued leaves: the nested string functions of
+C09; all six comparison operators on every pair of types; `and`, `or`, `not()`, `boolean()`,
+`true()`, `false()`, parentheses, nested to any depth) -/
+theorem C07_main_filtered_paths {d : Doc} (wf : WF d) (cfg : ECfg) (hns : cfg.nsIface = true)
+    (hinj : HashInj d cfg) (c : Ref) (hc : validRef d c = true) (regexOk : RegexOk) (limit : Nat)
+    (e : Ast) (h : XExp2F d c F .bool e)
+    (st : BState) (o : BOut) (hb : build regexOk limit true false e {} st = .ok o) :
+    ∃ t : Bool, evalP (F := F) d cfg o.q c = .ok (.bool t) ∧
+      Spec.evalTop (F := F) d e c = .ok (.bool t) :=
+  C07_main2_full wf cfg hns hinj c hc regexOk limit e h st o hb
+
+/-- `C07_main_filtered_paths` without the `HashInj` hypothesis (it is a theorem now: `hashInj_holds`; the side
+condition left is "no element has two attributes with the same prefix, name and value") -/
+theorem C07_main_filtered_paths_unconditional {d : Doc} (wf : WF d) (cfg : ECfg) (hns : cfg.nsIface = true)
+    (hattr : AttrTriplesDistinct d) (c : Ref) (hc : validRef d c = true) (regexOk : RegexOk) (limit : Nat)
+    (e : Ast) (h : XExp2F d c F .bool e)
+    (st : BState) (o : BOut) (hb : build regexOk limit true false e {} st = .ok o) :
+    ∃ t : Bool, evalP (F := F) d cfg o.q c = .ok (.bool t) ∧
+      Spec.evalTop (F := F) d e c = .ok (.bool t) :=
+  C07_main_filtered_paths wf cfg hns (PathSem.hashInj_holds wf hattr cfg) c hc regexOk limit e h st o hb
+
+/-- the document-independent version (number-valued leaves `ArithSem.NumEC`, as in `C07_main`) -/
+theorem C07_main_filtered_paths_doc_independent {d : Doc} (wf : WF d) (cfg : ECfg) (hns : cfg.nsIface = true)
+    (hinj : HashInj d cfg) (c : Ref) (hc : validRef d c = true) (regexOk : RegexOk) (limit : Nat)
+    (e : Ast) (h : XExp2 .bool e)
+    (st : BState) (o : BOut) (hb : build regexOk limit true false e {} st = .ok o) :
+    ∃ t : Bool, evalP (F := F) d cfg o.q c = .ok (.bool t) ∧
+      Spec.evalTop (F := F) d e c = .ok (.bool t) :=
+  C07_main2 wf cfg hns hinj c hc regexOk limit e h st o hb
+
+/-- **old fragment → new**: every expression of the fragment of `C07_main_full` (node-set leaves
+`PathPF`) is in the fragment of `C07_main_filtered_paths` -/
+theorem C07_filtered_paths_embeds_full {d : Doc} {c : Ref} {k : CmpSem.Kind} {e : Ast}
+    (h : XExpG (ArithSem.NumEF d ⟨c, 1, 1⟩ F) StringFns.StrE k e) : XExp2F d c F k e :=
+  xexp2F_of_xexpG h
+
+/-- … and every expression of the fragment of `C07_main` is in `XExp2` -/
+theorem C07_filtered_paths_embeds_main {k : CmpSem.Kind} {e : Ast} (h : XExp k e) : XExp2 k e :=
+  xexp2_of_xexp h
+
+/-- `C07_main_full` at `smartDescThroughFilter = false` is the restriction of
+`C07_main_filtered_paths` to the old fragment -/
+theorem C07_main_full_of_filtered_paths {d : Doc} (wf : WF d) (cfg : ECfg) (hns : cfg.nsIface = true)
+    (hinj : HashInj d cfg) (c : Ref) (hc : validRef d c = true) (regexOk : RegexOk) (limit : Nat)
+    (e : Ast) (h : XExpG (ArithSem.NumEF d ⟨c, 1, 1⟩ F) StringFns.StrE .bool e)
+    (st : BState) (o : BOut) (hb : build regexOk limit true false e {} st = .ok o) :
+    ∃ t : Bool, evalP (F := F) d cfg o.q c = .ok (.bool t) ∧
+      Spec.evalTop (F := F) d e c = .ok (.bool t) :=
+  C07_main_filtered_paths wf cfg hns hinj c hc regexOk limit e (C07_filtered_paths_embeds_full h) st o hb
+
+/-- **what the comparison sees of a filtered path**: the built plan of a path of `Frag2 true`
+evaluates to a node list with exactly the members of the oracle's node-set (order and repetitions
+are immaterial to the existential comparison cells), and its `boolean()` is the oracle's
+(non-emptiness) -/
+theorem C07_filtered_path_operand {d : Doc} (wf : WF d) (cfg : ECfg) (hns : cfg.nsIface = true)
+    (hinj : HashInj d cfg) (c : Ref) (hc : validRef d c = true) (regexOk : RegexOk) (limit : Nat)
+    (p : Ast) (hp : PredSem2.Frag2 true p) (st : BState) (o : BOut)
+    (hb : build regexOk limit true false p {} st = .ok o) :
+    ∃ l ns g, evalP (F := F) d cfg o.q c = .ok (.nodes l) ∧
+      Spec.eval (F := F) d p ⟨c, 1, 1⟩ = .ok (.val (.nodes ns) g) ∧ (∀ x, x ∈ l ↔ x ∈ ns) ∧
+      asBoolM (F := F) (.nodes l) = .ok (Spec.toBool (F := F) (.nodes ns)) :=
+  frag2_operand_value wf cfg hns hinj c hc regexOk limit p hp st o hb
+
+/-- a single comparison between two operands of `XExp2` (filtered paths among them), with the
+value spelled out: the built plan gives XPath's `compare` of the oracle's operand values -/
+theorem C07_comparison_value_filtered_paths {d : Doc} (wf : WF d) (cfg : ECfg) (hns : cfg.nsIface = true)
+    (hinj : HashInj d cfg) (c : Ref) (hc : validRef d c = true) (regexOk : RegexOk) (limit : Nat)
+    (op : String) (cop : Spec.CmpOp) (ka kb : CmpSem.Kind) (a b : Ast)
+    (hop : Spec.CmpOp.ofString op = some cop) (ha : XExp2 ka a) (hb : XExp2 kb b)
+    (st : BState) (o : BOut) (hbd : build regexOk limit true false (.oper op a b) {} st = .ok o) :
+    ∃ (va vb : Spec.Value F) (ga gb : Option (List (List Ref))),
+      Spec.eval (F := F) d a ⟨c, 1, 1⟩ = .ok (.val va ga) ∧
+      Spec.eval (F := F) d b ⟨c, 1, 1⟩ = .ok (.val vb gb) ∧
+      evalP (F := F) d cfg o.q c = .ok (.bool (Spec.compare d cop va vb)) ∧
+      Spec.eval (F := F) d (.oper op a b) ⟨c, 1, 1⟩ = .ok (.val (.bool (Spec.compare d cop va vb)) none) :=
+  C07_comparison_value2 wf cfg hns hinj c hc regexOk limit op cop ka kb a b hop ha hb st o hbd
+
+end XPathV.Theorems.C07
+
+section AxiomAuditFilteredPaths
+open XPathV.Theorems.C07
+end AxiomAuditFilteredPaths
